@@ -178,6 +178,34 @@ func TestBoundedC06(t *testing.T) {
 		clobber()
 		check(mt, fmt.Sprintf("resubscribed %s then unsubscribed", f), map[*bsub][2]interface{}{})
 	}
+	// an invalid filter is rejected without side effects: every filter, then every invalid filter built from a valid
+	// prefix of it (wildcard not alone in its level, '#' not last) for another subscriber; matching is as before
+	for _, f := range filters {
+		levels := strings.Split(f, "/")
+		var bad []string
+		for n := 0; n <= len(levels) && n <= 2; n++ {
+			prefix := strings.Join(levels[:n], "/")
+			if n > 0 {
+				prefix += "/"
+			}
+			bad = append(bad, prefix+"a#", prefix+"#/a", prefix+"a+", prefix+"+b/a")
+		}
+		for _, bf := range bad {
+			mt := NewMemProvider()
+			mt.Subscribe(pass(f), 1, s1)
+			clobber()
+			if _, err := mt.Subscribe(pass(bf), 1, s2); err == nil {
+				report("invalid filter %s accepted", bf)
+			}
+			clobber()
+			check(mt, fmt.Sprintf("s1=%s@1 then invalid %s refused", f, bf), map[*bsub][2]interface{}{s1: {f, byte(1)}})
+			if err := mt.Unsubscribe(pass(bf), s2); err == nil {
+				report("unsubscribe of never-subscribed invalid filter %s succeeded", bf)
+			}
+			clobber()
+			check(mt, fmt.Sprintf("s1=%s@1 then invalid %s unsubscribed", f, bf), map[*bsub][2]interface{}{s1: {f, byte(1)}})
+		}
+	}
 	// retained messages
 	mk := func(topic, payload string) *message.PublishMessage {
 		m := message.NewPublishMessage()
